@@ -65,7 +65,10 @@ def run_memmem(rep, repo):
     ])
     run.run('igris_memmem', spec)
     rep.add_absint('R-MEMMEM', summarize(it, run))
-    memmem_scan_rule(rep, mod)
+    try:
+        memmem_scan_rule(rep, mod)
+    except AnalysisBroken as e:
+        rep.defer_broken(e)      # the content rules of c19_content still decide the scan
 
 
 def count_searches(interp, st, i, callee, args):
@@ -780,7 +783,9 @@ def run_stringcpp(rep, repo):
     it = Interp(modw, externals=ext, opaque=op)
     run = Run19(it, [BUF])
     run.string_ctors = string_ctors(modw)
-    it.call_hook = token_hook(run, nonempty=True)
+    # every std::string built from (pointer, length) copies a range inside the view; that the RESULT is non-empty and is exactly
+    # [first non-space, last non-space] is decided by c19_content (R-TRIM-CONTENT) - a working copy of the whole view may be empty
+    it.call_hook = token_hook(run, nonempty=False)
     c = [f for f in modw.defined() if f.scope.startswith('igris::') and f.srcname == 'trim']
     if len(c) != 1:
         raise AnalysisBroken('igris::trim not instantiated')
